@@ -8,6 +8,10 @@ def run_file(path):
     print('replay of', d.get('property'), d.get('lemma'), 'case', str(d.get('case'))[:120])
     if site and site.startswith('randomx_vm_set_cache:stale-cachePtr'):
         ok, out = replay_c03_aba(); print(out[-1500:]); print('REPRODUCED' if ok else 'not reproduced'); return 1 if ok else 0
+    from engine import nreplay
+    if d.get('lemma') in nreplay.DRIVERS:
+        st, txt = nreplay.replay_record(d, 'replay-file'); print('native replay against the real code of the current tree:', st.upper()); print(txt)
+        return 1 if st == 'reproduced' else 0
     print('counterexample (solver model / failing path):'); print(json.dumps(d.get('failed'), indent=1, default=str)[:3000])
     print('no native driver for this lemma: re-run `./check %s --only %s` to regenerate it from the current tree' % (d.get('property'), d.get('lemma')))
     return 0
